@@ -181,8 +181,14 @@ QUICK = [
     (dict(workers=3, submit=[["a"]], ctl=[["resize", 2], ["shutdown", True]]), 1),
     (dict(workers=1, submit=[["a", "b"], ["c"]], ctl=[["shutdown", True]]), 2),
     (dict(workers=1, submit=[["a"], ["c"]], ctl=[["shutdown", True]], ctl_first=True), 2),
+    (dict(workers=2, submit=[["a"]], ctl=[["resize", 1], ["resize", 2]]), 2),
+    (dict(workers=2, submit=[["a"]], ctl=[["resize", 1], ["resize", 2], ["shutdown", True]]), 1),
+    (dict(workers=1, submit=[["a"]], ctl=[["resize", 0], ["resize", 1]]), 2),
 ]
 THOROUGH = [
+    (dict(workers=2, submit=[["a"]], ctl=[["resize", 1], ["resize", 2], ["shutdown", True]]), 2),
+    (dict(workers=1, submit=[["a", "b"]], ctl=[["resize", 0], ["resize", 1]]), 3),
+    (dict(workers=3, submit=[["a"]], ctl=[["resize", 1], ["resize", 3]]), 2),
     (dict(workers=1, submit=[["a", "b"], ["c"]], ctl=[["shutdown", True]], ctl_first=True), 2),
     (dict(workers=2, submit=[["a"], ["c"]], ctl=[["shutdown", True], ["resize", 1]], ctl_first=True), 2),
     (dict(workers=3, submit=[["a"]], ctl=[["resize", 2], ["resize", 1]]), 2),
